@@ -1,4 +1,4 @@
-import GnarkVerif.Gen.Imp.Exp_bn254_fr
+import GnarkVerif.Gen.Imp.ExpAll
 import GnarkVerif.Props.C01
 import Mathlib.Algebra.GroupWithZero.Basic
 import Mathlib.Algebra.Group.Basic
@@ -12,7 +12,7 @@ Proved: in every monoid the translated text computes `x ^ k` for k ≥ 0, and in
 (k = 0 ↦ 1 also for x = 0, negative k through the inverse).
 -/
 namespace GV.ExpGen
-open GV.GoImp GV.Gen.Imp.Exp_bn254_fr
+open GV.GoImp GV.Gen.Imp GV.Gen.Imp.Exp_bn254_fr
 
 theorem shiftRight_log2 (n : Nat) (hn : n ≠ 0) : n >>> n.log2 = 1 := by
   rw [Nat.shiftRight_eq_div_pow]
@@ -172,6 +172,30 @@ theorem C01expgen_eq_model (h : p.OK) (z x : Nat) (hx : x < p.q) (k : ℤ) :
     abs p (Exp (mul p) (one p) (inv p) z x k) = abs p (exp p x k) := by
   rw [(C01expgen_field p h z x hx k).2, (C01_exp p h x hx k).2]
 end Field
+
+/-! ### all 23 field packages
+
+`Element.Exp` is template-generated; the translator reads EVERY package's element.go on every run (Gen/Imp/Exp_<pkg>.lean) and
+Gen/Imp/ExpAll.lean proves each translation equal to the bn254/fr one (`<pkg>_same`, `allExp_same`), so the theorems hold of all. -/
+
+theorem C01expgen_all_zpow {G : Type} [GroupWithZero G] :
+    ∀ e ∈ GV.Gen.Imp.ExpAll.allExp, ∀ (z x : G) (k : ℤ), e.2 (· * ·) 1 (·⁻¹) z x k = x ^ k := by
+  intro e he z x k
+  have := GV.Gen.Imp.ExpAll.allExp_same e he
+  rw [show e.2 (· * ·) 1 (·⁻¹) z x k = @Exp_bn254_fr.Exp G (· * ·) 1 (·⁻¹) z x k from by rw [this]]
+  exact C01expgen_zpow z x k
+
+theorem C01expgen_all_field (p : GV.Field.Params) [Fact p.q.Prime] (h : p.OK) :
+    ∀ e ∈ GV.Gen.Imp.ExpAll.allExp, ∀ (z x : Nat) (k : ℤ), x < p.q →
+      e.2 (GV.Field.mul p) (GV.Field.one p) (GV.Field.inv p) z x k < p.q ∧
+      GV.Field.abs p (e.2 (GV.Field.mul p) (GV.Field.one p) (GV.Field.inv p) z x k) = GV.Field.abs p x ^ k := by
+  intro e he z x k hx
+  have := GV.Gen.Imp.ExpAll.allExp_same e he
+  rw [show e.2 (GV.Field.mul p) (GV.Field.one p) (GV.Field.inv p) z x k =
+    @Exp_bn254_fr.Exp Nat (GV.Field.mul p) (GV.Field.one p) (GV.Field.inv p) z x k from by rw [this]]
+  exact C01expgen_field p h z x hx k
+
+theorem C01expgen_all_packages : GV.Gen.Imp.ExpAll.allExp.length = 23 := rfl
 
 /-! non-vacuity: the generated code on integers mod 251 in Montgomery form, and in ℚ -/
 example : Exp (· * ·) 1 (·⁻¹) (7 : ℚ) 2 10 = 1024 ∧ Exp (· * ·) 1 (·⁻¹) (7 : ℚ) 2 (-3) = 1 / 8 ∧
